@@ -281,13 +281,13 @@ Fixpoint nodup_strs (l : list str) : bool :=
   end.
 
 (** ReqFilter.Valid, as far as the store depends on it: hex ids/authors,
-    single-letter tag names (pairwise distinct: a Go map), limit >= 0 *)
+    single-letter tag names (pairwise distinct: a Go map), 0 <= limit (an int64) *)
 Definition gate_valid_filter (f : rfilter) : bool :=
   opt_holdsb (f_ids f) (forallb (lower_hex 64)) &&
   opt_holdsb (f_authors f) (forallb (lower_hex 64)) &&
   opt_holdsb (f_tags f) (fun m => forallb (fun nv => match fst nv with [c] => ascii_letter c | _ => false end) m &&
                                    nodup_strs (List.map fst m)) &&
-  opt_holdsb (f_limit f) (fun l => 0 <=? l).
+  opt_holdsb (f_limit f) (fun l => (0 <=? l) && (l <? two63)).
 
 (** ids determine events (the id is the SHA-256 of the other signed fields) *)
 Definition ids_functional (es : list event) : Prop :=
